@@ -822,13 +822,16 @@ Proof.
   - cbn [bind]. eauto using valid_with_view.
 Qed.
 
-Lemma max_hosts_ok : forall w a, valid w a -> exists m, max_hosts a = Ok m /\ match m with Some x => x <= 255 | None => True end.
+Lemma max_hosts_ok : forall w a, valid w a -> exists m, max_hosts a = Ok m /\ match m with Some x => 0 < x <= 255 | None => True end.
 Proof.
   intros w a V. destruct (valid_hops w a V) as (hs & Hhs & _). unfold max_hosts. rewrite Hhs. cbn [bind].
   destruct hs as [|h0 t].
   - exists None. split; [reflexivity|exact I].
-  - destruct (fold_right (fun h acc => Z.max (hs_addrs h) acc) 0 (h0 :: t) <=? 255) eqn:E.
-    + eexists. split; [reflexivity|]. apply Z.leb_le in E. exact E.
+  - destruct (fold_right (fun h acc => Z.max (hs_addrs h) acc) 0 (h0 :: t) <=? 255) eqn:E;
+      destruct (0 <? fold_right (fun h acc => Z.max (hs_addrs h) acc) 0 (h0 :: t)) eqn:E0; cbn [andb].
+    + eexists. split; [reflexivity|]. apply Z.leb_le in E. apply Z.ltb_lt in E0. split; assumption.
+    + exists None. split; [reflexivity|exact I].
+    + exists None. split; [reflexivity|exact I].
     + exists None. split; [reflexivity|exact I].
 Qed.
 
